@@ -521,6 +521,8 @@ pub fn run_simulated_process<T: Send + 'static>(
     }
 }
 
+const HARNESS_PANIC_MARK: &str = "\u{1}simplc-harness-panic\u{1}";
+
 /// Runs `f` in a forked child of the (single-threaded) worker and returns its serialised result.
 /// Simulated command-line processes get what a real process has: fresh process-global state
 /// (statics, lazies, caches a change under test may introduce), and a crash (abort, stack
@@ -545,7 +547,9 @@ pub fn run_forked<T: serde::Serialize + serde::de::DeserializeOwned>(f: impl FnO
             let r = std::panic::catch_unwind(std::panic::AssertUnwindSafe(f));
             let payload = match r {
                 Ok(v) => serde_json::to_vec(&v).unwrap_or_default(),
-                Err(_) => Vec::new(),
+                // the code under test always runs on threads of its own with their own catch_unwind:
+                // a panic that arrives here is one of the simulator's own code (an oracle, a generator)
+                Err(_) => format!("{HARNESS_PANIC_MARK}{}", take_last_panic().unwrap_or_else(|| "panic".into())).into_bytes(),
             };
             let mut off = 0;
             while off < payload.len() {
@@ -574,6 +578,9 @@ pub fn run_forked<T: serde::Serialize + serde::de::DeserializeOwned>(f: impl FnO
         if data.is_empty() {
             let why = if libc::WIFSIGNALED(status) { format!("killed by signal {}", libc::WTERMSIG(status)) } else { format!("exit status {}", libc::WEXITSTATUS(status)) };
             return Err(format!("simulated process ended without a result ({why})"));
+        }
+        if data.starts_with(HARNESS_PANIC_MARK.as_bytes()) {
+            return Err(format!("harness panic: {}", String::from_utf8_lossy(&data[HARNESS_PANIC_MARK.len()..])));
         }
         serde_json::from_slice(&data).map_err(|e| format!("unreadable result from simulated process: {e}"))
     }
